@@ -22,6 +22,8 @@ func And(a, b bool) bool           { panic("engine") }
 func Or(a, b bool) bool            { panic("engine") }
 func Not(a bool) bool              { panic("engine") }
 func Implies(a, b bool) bool       { panic("engine") }
+func IteByte(c bool, a, b byte) byte { panic("engine") }
+func IteInt(c bool, a, b int) int   { panic("engine") }
 func SameBytes(a, b []byte) bool   { panic("engine") }
 func SameString(a, b string) bool  { panic("engine") }
 func Catch(f func()) bool          { panic("engine") }
